@@ -17,6 +17,7 @@ RULE = ("Cases = (public function, arguments): every public callable of the bct 
         "C-ordered, F-ordered and non-contiguous (sliced) memory. Default flags, and copy=True where a copy flag exists (copy=False is the "
         "stated exception and is excluded). Oracle = deep snapshot (values NaN-aware, dtype, shape) of every ndarray argument, including "
         "arrays nested in list/tuple arguments, taken before the call and compared after it, whether the call returned or raised. "
+        "A call-sequences unit runs 2-5 calls in a row and re-checks the snapshots of ALL earlier arguments after every later call. "
         "Non-trivial = the call completed or raised, and at least one array argument had a nonzero diagonal or labels other than 1..k; "
         "distinct by hash of (function, arguments).")
 BOUNDS = {"n": "3..7", "per_call_timeout_s": 5}
@@ -246,7 +247,39 @@ def _tempting(a):
     return False
 
 
+def check_sequence(case, ctx):
+    """several calls in a row; every array handed to an EARLIER call must still be intact after every LATER call
+    (a routine that keeps a reference to its argument, a shared cache or a mutable default would show here)"""
+    fails = []
+    ctx.label("sequence")
+    kept = []          # (step, fn, path, live array, snapshot)
+    tempting = False
+    for t, call in enumerate(case["calls"]):
+        name = call["fn"]
+        fn = getattr(bct, name)
+        args = [np.array(a) if isinstance(a, np.ndarray) else a for a in call["args"]]
+        kwargs = dict(call["kwargs"])
+        snaps = []
+        _snap(args, "call%d(%s).args" % (t, name), snaps)
+        _snap(kwargs, "call%d(%s).kwargs" % (t, name), snaps)
+        tempting = tempting or any(_tempting(sn[1]) for sn in snaps)
+        o = ctx.call(fn, *args, timeout=5.0, **kwargs)
+        if o.status == "timeout":
+            return fails
+        kept.extend((t, name) + sn for sn in snaps)
+        for (t0, fn0, path, live, before, dt, shp) in kept:
+            if live.dtype != dt or live.shape != shp or not np.array_equal(live, before, equal_nan=(live.dtype.kind in "fc")):
+                fails.append(Failure("%s:argument-modified" % fn0 if t0 == t else "%s:argument-of-earlier-call-modified-by-later-call" % name,
+                                     "%s was changed; detected after call %d (%s)" % (path, t, name), case))
+                return fails
+    if tempting:
+        ctx.mark_nontrivial(case)
+    return fails
+
+
 def check(case, ctx):
+    if "calls" in case:
+        return check_sequence(case, ctx)
     name = case["fn"]
     fn = getattr(bct, name)
     args = case["args"]
@@ -318,8 +351,26 @@ def cases(draw, name):
     return {"fn": name, "args": list(args), "kwargs": kwargs, "layout": layout}
 
 
+SEQ_POOL = None
+
+
+@st.composite
+def sequences(draw):
+    global SEQ_POOL
+    if SEQ_POOL is None:
+        SEQ_POOL = [n for n in registered_names() if n not in SLOW and n not in ("rentian_scaling", "randomize_graph_partial_und", "nbs_bct",
+                                                                                 "generative_model", "find_motif34")]
+    k = draw(st.integers(2, 5))
+    calls = []
+    for _ in range(k):
+        name = draw(st.sampled_from(SEQ_POOL))
+        a, kw = draw(call_args(name))
+        calls.append({"fn": name, "args": list(a), "kwargs": kw})
+    return {"calls": calls}
+
+
 def units(tier):
-    us = []
+    us = [Unit("call-sequences", check, strategy=sequences, examples=(800, 10000), shards=(8, 16))]
     BOUNDS["uncovered"] = uncovered_names()
     BOUNDS["public_functions"] = len(public_functions())
     BOUNDS["registered"] = len(registered_names())
